@@ -86,6 +86,23 @@ def run_verus_unit(unit, props_default, tier, outdir, skip_fns=None, depth=0):
         nver = res.get('verified') or 0
         if nver == 0:
             hard = 'vacuity guard: verus reported 0 verified items'
+    # vacuity probes: entry (`assert(false)` must fail) on every run; exit (`ensures false` must be refuted, in call-graph
+    # layers) on every run for units of up to 25 functions and in the thorough tier for the two large units
+    if hard is None:
+        try:
+            vacuous, vsecs, sane, why = vu.run_vacuity(asm, path, exits=(tier == 'thorough' or len(asm.fn_ranges) <= 25))
+            res['wall_s'] += vsecs
+            if not sane:
+                hard = 'vacuity run failed to produce a verdict: ' + why
+            for fv in vacuous:
+                f = fv.rsplit(' (', 1)[0]
+                for o in asm.obligations:
+                    if o.fn == f and o.status == 'discharged':
+                        o.status = 'undecided'
+                        o.detail = ('vacuity guard: a `false` probe %s was PROVED — the function\'s context is contradictory '
+                                    '(precondition or axiom), so nothing it discharges can be trusted\n' % fv) + o.detail
+        except Exception as e:
+            hard = 'vacuity run crashed: %s' % e
     # thorough: re-run undecided / everything with another seed to detect flaky (unstable) proofs
     if tier == 'thorough' and hard is None:
         res2 = vu.run_verus(path, rlimit=120, extra=['--smt-option', 'smt.random_seed=%d' % (int(os.environ.get('VERIF_SEED', '0')) % 1000 + 1)])
